@@ -299,3 +299,8 @@ def _storage_classes(tier="quick", seed=0):
 
 
 groups.group(id="C05.schemes.storage", prop="C05", kind="K5", functions=["microjs.compiler:Compiler._compile_expression", "microjs.compiler:Compiler._emit_store_variable"])(_storage_classes)
+
+
+# ---- fixed probes (known deviations are listed in /verif/known_findings.json and reported as KNOWN-FINDING) ------------------
+PROBES_C05 = [('catch-parameter-scope', 'var e = 1; try { throw 2 } catch (e) { } e', 1), ('nested-labels-on-one-loop', 'var n = 0; a: b: while (n < 2) { n++; continue a; } n', 2)]
+groups.register_probes("C05", PROBES_C05)
